@@ -19,6 +19,7 @@ import (
 	"strings"
 	"sync"
 	"sync/atomic"
+	"time"
 	"unsafe"
 )
 
@@ -57,6 +58,7 @@ type Report struct {
 	NilPanics   int64          `json:"nil_panics_checked"`
 	Callbacks   int64          `json:"callbacks_checked"`
 	SnapsStable int64          `json:"snapshot_stability_checks"`
+	Hung        bool           `json:"hung"`
 	stateSet    map[string]struct{}
 }
 
@@ -799,6 +801,14 @@ func alphabet(spec *MockSpec, ms []*methodInfo, shapeLeg bool) []op {
 	return ops
 }
 
+// progress of each explorer goroutine, for the hang watchdog
+type slot struct {
+	last atomic.Int64
+	cur  atomic.Pointer[run]
+}
+
+var slots []*slot
+
 // task is one shard of a mock's history space: all histories starting with op first
 // (first < 0: the static checks only).
 type task struct {
@@ -842,7 +852,7 @@ func prepare(spec *MockSpec, col *collector) []task {
 }
 
 // explore runs every op sequence of length 1..depth (of this shard) on fresh mocks.
-func explore(t task, col *collector, rep *Report, mu *sync.Mutex) {
+func explore(t task, col *collector, rep *Report, mu *sync.Mutex, sl *slot) {
 	spec, ms, ops := t.spec, t.ms, t.ops
 	depth := spec.Depth
 	st := &stats{}
@@ -855,6 +865,8 @@ func explore(t task, col *collector, rep *Report, mu *sync.Mutex) {
 		if len(seq) > 0 {
 			r := &run{spec: spec, ms: ms, pv: reflect.ValueOf(spec.New()), model: make([][]record, len(ms)), col: col, stats: st,
 				checkG: len(seq) == 1 || spec.Family == "shape"}
+			sl.cur.Store(r)
+			sl.last.Store(time.Now().UnixNano())
 			for _, oi := range seq {
 				r.apply(ops[oi])
 				if r.bad {
@@ -918,6 +930,7 @@ func Main(specs []MockSpec) {
 	workers := flag.Int("workers", runtime.NumCPU(), "parallel explorers")
 	only := flag.String("only", "", "substring filter on mock names")
 	cpuprof := flag.String("cpuprofile", "", "write a CPU profile")
+	hangLimit := flag.Duration("hang", 90*time.Second, "an explorer without progress for this long is reported as hung")
 	flag.Parse()
 	if *cpuprof != "" {
 		f, _ := os.Create(*cpuprof)
@@ -931,6 +944,8 @@ func Main(specs []MockSpec) {
 	ch := make(chan task, 64)
 	for i := 0; i < *workers; i++ {
 		wg.Add(1)
+		sl := &slot{}
+		slots = append(slots, sl)
 		go func() {
 			defer wg.Done()
 			for t := range ch {
@@ -942,11 +957,38 @@ func Main(specs []MockSpec) {
 							col.add(Violation{Prop: "HARNESS", Oracle: "driver-panic", Mock: t.spec.Name, Detail: fmt.Sprintf("%v\n%s", p, buf[:n])})
 						}
 					}()
-					explore(t, col, rep, &mu)
+					explore(t, col, rep, &mu, sl)
 				}()
+				sl.cur.Store(nil)
 			}
 		}()
 	}
+	// Hang watchdog: an operation takes microseconds; an explorer that makes no progress for
+	// hangLimit is stuck inside generated code (a lock held across the callback, a leaked
+	// lock). The history in flight is reported and the process ends.
+	go func() {
+		for {
+			time.Sleep(2 * time.Second)
+			for _, sl := range slots {
+				r := sl.cur.Load()
+				if r == nil || time.Since(time.Unix(0, sl.last.Load())) < *hangLimit {
+					continue
+				}
+				h := make([]string, len(r.hist))
+				for i, o := range r.hist {
+					h[i] = o.String(r.ms)
+				}
+				col.add(Violation{Prop: "C03,C04,C06,C07,C08", Oracle: "hang", Mock: r.spec.Name, History: h,
+					Detail: fmt.Sprintf("no progress for %s inside the last operation of this history: generated code blocks (deadlock on the mock's own locks)", *hangLimit)})
+				mu.Lock()
+				rep.States = len(rep.stateSet)
+				rep.Violations = col.viols
+				rep.Hung = true
+				json.NewEncoder(os.Stdout).Encode(rep)
+				os.Exit(0)
+			}
+		}
+	}()
 	// big jobs first
 	sort.SliceStable(specs, func(i, j int) bool { return specs[i].Family < specs[j].Family })
 	for i := range specs {
